@@ -167,7 +167,7 @@ func C08(c *Ctx) {
 	}
 	r.Min("LeftRecursion variants", 8, n)
 	// the flags the runtime dispatches on are the ones the analysis computed, for every rule
-	builderPairing(c, "C08-c", "writeRule")
+	builderPairingN(c, "C08-c", "writeRule")
 }
 
 func c08d(c *Ctx, a *absVariant) {
